@@ -86,18 +86,18 @@ def jobs_for(tier, seed):
     J = regress_jobs()
     rot = seed % 16
     if tier == 'quick':
-        J.append(job(one(2), drv(2, elem=NT), 1, 1600, {'one', 'fault', 'tracked'}, 'one N=2 nothrow-move, single faults'))
+        J.append(job(one(2), drv(2, elem=NT), 1, 1200, {'one', 'fault', 'tracked'}, 'one N=2 nothrow-move, single faults'))
         J.append(job(one(0, nothrow=False), drv(0, elem=TM), 1, 900, {'one', 'fault', 'tracked'}, 'one N=0 throwing-move'))
         J.append(job(one(3, copyable=False, nothrow=False), drv(3, elem=MOT), 1, 700, {'one', 'fault', 'tracked'}, 'one N=3 move-only throwing'))
         J.append(job(one(1), drv(1, elem=CO, CONSTRUCT=1), 1, 500, {'one', 'fault', 'tracked'}, 'one N=1 copy-only, allocator construct/destroy'))
-        J.append(job(one(2), drv(2, elem=TRIV), 0, 3000, {'one', 'triv'}, 'one N=2 trivially copyable twin'))
+        J.append(job(one(2), drv(2, elem=TRIV), 0, 2000, {'one', 'triv'}, 'one N=2 trivially copyable twin'))
         J.append(job(one(2), drv(2, elem=INT, ALLOC=0), 0, 1500, {'one', 'triv', 'stdalloc'}, 'one N=2 int, std::allocator'))
         J.append(job(one(2, IsStd=True), drv(2, elem=NT, ALLOC=0), 1, 700, {'one', 'fault', 'tracked', 'stdalloc'}, 'one N=2 std::allocator'))
         # two containers: the trait dispatch is the essence of C07 / C09 -- all 16 combinations every time,
         # a stratified sample of each instance (faults on a seed-rotated quarter of them)
         for i, tr in enumerate(ALL_TRAITS):
             fm = 1 if (i + rot) % 4 == 0 else 0
-            J.append(job(two(2, 2, **traits_mc(*tr)), drv(2, 2, elem=NT if i % 2 == 0 else TM, **traits_drv(*tr)), fm, 450 if fm else 700,
+            J.append(job(two(2, 2, **traits_mc(*tr)), drv(2, 2, elem=NT if i % 2 == 0 else TM, **traits_drv(*tr)), fm, 350 if fm else 500,
                          {'two', 'tracked', 'traits'} | ({'fault'} if fm else set()), 'two N=2,2 traits ca/ma/s/ae=%d%d%d%d' % tr))
         # mixed exception specifications (nothrow move-assign + throwing move-ctor and vice versa): the internal
         # noexcept specifications must be at least as weak as what the routine really does (C18)
@@ -113,7 +113,7 @@ def jobs_for(tier, seed):
                      {'two', 'tracked', 'traits', 'mixedN', 'fault'}, 'two N=3,2 nothrow-move traits %d%d%d%d' % tr))
         J.append(job(two(2, 2, IsStd=True, allocids=(0,)), drv(2, 2, elem=NT, ALLOC=0), 0, 1200,
                      {'two', 'tracked', 'stdalloc'}, 'two N=2,2 std::allocator'))
-        J.append(job(mx(2, 5), drv(2, elem=NT, MAXSZ=5), 0, 2500, {'max', 'tracked'}, 'max_size()=5, N=2'))
+        J.append(job(mx(2, 5), drv(2, elem=NT, MAXSZ=5), 0, 1500, {'max', 'tracked'}, 'max_size()=5, N=2'))
         J.append(job(mx(0, 6), drv(0, elem=TRIV, MAXSZ=6), 0, 1500, {'max', 'triv'}, 'max_size()=6, N=0 trivially copyable'))
         # long random behaviours (tlc -simulate): state the shape abstraction does not contain (moved-from leftovers,
         # stale bytes, block-id history); faults on the last call only
@@ -124,7 +124,7 @@ def jobs_for(tier, seed):
                      {'one', 'tracked', 'fault', 'sim'}, 'long random behaviours (40 calls), one N=2'))
         # narrow size_type: boundary arguments around max_size() and around 2^8 (C12), 8-bit exhaustively in thorough
         J.append(job(wide(2, 63), drv(2, elem=TRIV, SIZET=8), 0, None, {'max', 'triv', 'narrow'}, '8-bit size_type, N=2 trivially copyable, boundary arguments'))
-        J.append(job(wide(0, 21), drv(0, elem=NT, SIZET=8), 1, 500, {'max', 'tracked', 'narrow', 'fault'}, '8-bit size_type, N=0 nothrow-move, boundary arguments + faults'))
+        J.append(job(wide(0, 21), drv(0, elem=NT, SIZET=8), 1, 250, {'max', 'tracked', 'narrow', 'fault'}, '8-bit size_type, N=0 nothrow-move, boundary arguments + faults'))
         J.append(job(one(2, maxlen=3, maxcnt=2), drv(2, elem=TM, SIZET=16), 0, 1200, {'one', 'tracked', 'narrow'}, '16-bit size_type, N=2'))
         # C16: all pairs of sequences over {1,2,3} up to length 3 (1600 pairs), equal and mixed inline capacities
         J.append(job(order(3), drv(1, 3, elem=NT), 0, None, {'order', 'tracked'}, 'order: all pairs len<=3, N=1 vs 3, C++17 six operators'))
